@@ -1007,6 +1007,7 @@ func (m *Model) propCall(n *N, env *MEnv) res {
 }
 
 func (m *Model) litCall(n *N, env *MEnv) res {
+	openValue := false
 	if n.Chain.Add == '~' {
 		m.nfDepth++
 		defer func() { m.nfDepth-- }()
@@ -1036,6 +1037,15 @@ func (m *Model) litCall(n *N, env *MEnv) res {
 		}
 		chainArg = r.v
 	}
+	if n.K == KVarC && (len(n.L) > 0 || len(n.Kw) > 0) {
+		// the argument list of a variable call is written like that of any call: it is
+		// evaluated once, after the chain argument (what the callee then receives of it is
+		// not stated anywhere, so the value of such a call is left open)
+		if _, _, r := m.args(n, env); r.c == cRaise {
+			return r
+		}
+		openValue = true
+	}
 	one := func(rv Val, acc Val) res {
 		if n.Chain.Add == '~' {
 			saved := m.nfDepth
@@ -1051,7 +1061,11 @@ func (m *Model) litCall(n *N, env *MEnv) res {
 		}
 		return m.callAs(how, f.v, []Val{rv}, nil)
 	}
-	return m.chain(n.Chain, recv.v, chainArg, one)
+	r := m.chain(n.Chain, recv.v, chainArg, one)
+	if openValue && r.c != cRaise {
+		return norm(vOpq)
+	}
+	return r
 }
 
 // nativeCall models the higher-order props of Iterable (written in Pangaea, shipped with
@@ -1179,6 +1193,9 @@ func starRole(kind string, n *N, i int) string {
 func callPrefix(n *N) string {
 	if n.K == KPropC {
 		return "chain" + n.Chain.String()
+	}
+	if n.K == KVarC {
+		return "varcall"
 	}
 	return "call"
 }
